@@ -47,6 +47,23 @@ HOOK_NAMES = (
 )
 
 
+class Token:
+    """An argument with identity (picklable, equal by number): the continuation must be handed this very object unless the
+    process went through a checkpoint in between."""
+
+    def __init__(self, number):
+        self.number = number
+
+    def __eq__(self, other):
+        return isinstance(other, Token) and other.number == self.number
+
+    def __hash__(self):
+        return hash(('Token', self.number))
+
+    def __repr__(self):
+        return f'Token({self.number})'
+
+
 class ProgramError(Exception):
     """Raised by generated step functions for ret = raise."""
 
@@ -101,6 +118,7 @@ class World:
 
     def __init__(self):
         self.events = []
+        self.tokens = []  # Token objects handed to Continue by steps (identity is checked by the receiving step)
         self.site_hook = None  # callable(proc, site, count): the environment acting from inside user code (e.g. a pause)
         self.fault = None  # (site, occurrence) -> raise InjectedFault there
         self.fault_counts = {}
@@ -255,8 +273,12 @@ def _make_ret(proc, world, ret, plumpy):
     kind = ret['t']
     if kind == 'continue':
         # (fresh objects every time: a step may change its arguments in place)
-        return plumpy.Continue(getattr(proc, step_name(ret['to'])), *copy.deepcopy(ret.get('args', [])),
-                               **copy.deepcopy(ret.get('kwargs', {})))
+        args = copy.deepcopy(ret.get('args', []))
+        if ret.get('token') is not None:
+            token = Token(ret['token'])
+            world.tokens.append(token)
+            args.append(token)
+        return plumpy.Continue(getattr(proc, step_name(ret['to'])), *args, **copy.deepcopy(ret.get('kwargs', {})))
     if kind == 'wait':
         if ret.get('to') is None:
             return plumpy.Wait(None, ret.get('msg'), ret.get('data'))  # a wait without continuation (can only be killed)
@@ -302,6 +324,9 @@ def _make_step(index, step, world, plumpy):
         trace = getattr(self, '_trace', None)
         if trace is not None:
             trace.append([name, freeze(args), freeze(kwargs)])
+        for value in args:
+            if isinstance(value, Token):
+                world.rec('token', label(self), name, value.number, any(value is known for known in world.tokens))
         world.site(self, f'step:{name}')
         if step.get('mutargs'):
             # the step works on its arguments in place (they are its own: nothing else may notice)
@@ -414,6 +439,17 @@ def build_process_class(program, world, plumpy, hooks=True, record_calls=True):
 
     namespace['init'] = init
 
+    if program.get('codec'):
+        # like downstream users (AiiDA), the process stores its inputs and outputs in a representation of its own
+        def encode_input_args(self, inputs):
+            return {'encoded-by-process': copy.deepcopy(dict(inputs))}
+
+        def decode_input_args(self, encoded):
+            return copy.deepcopy(encoded['encoded-by-process'])
+
+        namespace['encode_input_args'] = encode_input_args
+        namespace['decode_input_args'] = decode_input_args
+
     if program.get('custom_waiting'):
         # like downstream users (AiiDA), the process substitutes its own subclass of the WAITING state
         from plumpy import process_states
@@ -502,6 +538,8 @@ def model_run(program, resume_values=None, max_steps=64):
         base = dict(trace=trace, outputs=outputs, waits=waits, statuses=statuses, callbacks_fail=callbacks_fail)
         if kind == 'continue':
             index, args, kwargs = ret['to'], list(ret.get('args', [])), dict(ret.get('kwargs', {}))
+            if ret.get('token') is not None:
+                args.append(repr(Token(ret['token'])))
             continue
         if kind == 'wait':
             if resume_values == 'trace':
